@@ -446,6 +446,8 @@ type session struct {
 	panicv any
 
 	start, end int64
+	req        beginReq // the request, for a retrying client
+	faulted    bool     // one of its events got the planned fault list
 }
 
 var (
